@@ -299,7 +299,7 @@ def predicate_stream(ctx, cirq, mods, checks, n):
                            dict(signature=f'stabilizer:{g.fam}', gate=g.key())))
     # ---- equality family and trace-distance bound ----
     for k in range(n * 160):
-        mode = rng.choice(['equal', 'equal', 'tdb'])
+        mode = rng.choice(['equal', 'equal', 'tdb', 'tdb'])
         if mode == 'equal':
             g = gates.draw(rng, rng.choice([f for f in fams if f not in ('Matrix', 'Ctrl', 'Perm', 'Identity', 'CSwap')]))
             g2 = near(rng, g)
@@ -321,13 +321,23 @@ def predicate_stream(ctx, cirq, mods, checks, n):
             cg = g.cirq_gate(cirq, mods)
             if not g.shape:
                 continue
+            # the bound is asked of gates, of operations, and of operations controlled through controlled_by
+            # (ControlledOperation has its own implementation, distinct from ControlledGate's)
+            form = rng.choice(['gate', 'op', 'controlled_by', 'controlled_by'])
+            if form != 'gate':
+                qs = cirq.LineQid.for_qid_shape(g.shape, start=2)
+                cg = cg.on(*qs)
+                if form == 'controlled_by':
+                    nc = rng.choice([1, 1, 2])
+                    cq = cirq.LineQubit.range(nc)
+                    cg = cg.controlled_by(*cq, control_values=[rng.choice([0, 1]) for _ in range(nc)])
             b = cirq.trace_distance_bound(cg)
             t = true_trace_distance_bound(unitary_of(cirq, cg))
-            ctx.count('trace_distance_bound', g.key(), t > 1e-6, sample=dict(gate=g.key(), bound=b, actual=t))
+            ctx.count('trace_distance_bound', [g.key(), form], t > 1e-6, sample=dict(gate=g.key(), form=form, bound=b, actual=t))
             if not (b >= t - 1e-7):
                 checks.append(('trace_distance_bound', 'false',
                                f'trace_distance_bound({g.fam} {g.key()[1]}) = {b} is below the actual value {t}',
-                               dict(signature=f'tdb:{g.fam}', gate=g.key(), bound=b, actual=t)))
+                               dict(signature=f'tdb:{form}:{g.fam}', gate=g.key(), form=form, bound=b, actual=t)))
 
 
 def replay(ctx, data):
